@@ -261,6 +261,13 @@ def run(ck):
                 mod.run(sh)
                 ck.ob('R7.3', 'shared-guard-found|' + key, sh.count == len(g['keys']), s['loc'], '%d of %d %s %s obligations re-checked' % (sh.count, len(g['keys']), g['check'], g['rule']), fn=fn['path'])
     ck.floor('R7.1', n_sites, 140, 'panic-capable sites enumerated')
+    # the verification the typed unwraps rest on is is_assignable (through verify_code_return_type): a static value that passes it
+    # for a simple target type must be a simple value. The decision table of is_assignable is the one C05 R5.1 evaluates.
+    import rules.c05 as c05
+    s5 = _core.Shared(ck, 'R7.2', lambda r, k: r == 'R5.1' and k.startswith('is_assignable|'), 'C05:',
+                      ' [a type that passes the verification in front of a typed unwrap without being what the unwrap expects panics there]')
+    c05.run(s5)
+    ck.floor('R7.2', s5.count, 256, 'shared C05 R5.1 is_assignable cells')
     ck.extra['stale_table_rows'] = sorted(k for k in rows if k not in used)
 
     # ---- R7.5 ranges ------------------------------------------------------------
@@ -410,22 +417,56 @@ def visited_guard_ok(crate, fn, loop):
     pushes = [c for c in H.calls_in(loop) if c.get('m') in ('push', 'push_back', 'push_front', 'extend', 'append') and pp(H.strip_refs(c['recv']), maxlen=60) == wl_key]
     if not pushes:
         return True, 'nothing is pushed back onto the work list inside the loop'
+    def split(e, op):
+        e = H.strip_refs(e)
+        while e.get('k') in ('Paren', 'DropTemps'):
+            e = H.strip_refs(e['e'])
+        if e.get('k') == 'Binary' and e.get('op') == op:
+            return split(e['l'], op) + split(e['r'], op)
+        return [e]
+
+    def polarity(e):
+        """'fresh' if e is true exactly when the item was not seen before (and is marked now), 'seen' for the opposite, else None."""
+        neg = False
+        e = H.strip_refs(e)
+        while e.get('k') == 'Unary' and e.get('op') == 'Not':
+            neg = not neg
+            e = H.strip_refs(e['e'])
+        t = pp(e, maxlen=200).replace('std::', '')
+        pol = None
+        if e.get('k') == 'MCall' and e.get('m') == 'insert':
+            pol = 'fresh'
+        elif e.get('k') == 'MCall' and e.get('m') in ('contains', 'contains_key', 'contains_module'):
+            pol = 'seen'
+        elif e.get('k') == 'Call' and (e.get('def') or '').endswith('mem::replace') and len(e['args']) == 2 and H.lit_value(e['args'][1]) is True:
+            pol = 'seen'
+        if pol is None:
+            return None
+        return {'fresh': 'seen', 'seen': 'fresh'}[pol] if neg else pol
+
+    def decides(cond, branch):
+        """Does taking `branch` ('then' / 'els') of a test on cond imply the item is fresh / seen?  then: a conjunct decides;
+        els: a disjunct decides (with the opposite polarity)."""
+        if branch == 'then':
+            return {polarity(x) for x in split(cond, 'And')} - {None}
+        return {{'fresh': 'seen', 'seen': 'fresh'}[polarity(x)] for x in split(cond, 'Or') if polarity(x)}
     tests = []
     for iff in (x for x in walk(loop) if x.get('k') == 'If'):
         c = iff['c']
         t = pp(c, maxlen=200)
-        is_tas = ('mem::replace(' in t.replace('std::', '') or 'replace(' in t) and 'true' in t
-        is_ins = any(x.get('m') == 'insert' for x in H.calls_in(c)) or any(x.get('m') in ('contains', 'contains_key', 'contains_module') for x in H.calls_in(c))
-        if not (is_tas or is_ins):
-            continue
-        skip = any(x.get('k') == 'Continue' for x in walk(iff['then'])) or any(x.get('k') == 'Continue' for x in walk(iff.get('els', {'k': 'x'})))
-        guarded = all(any(y is p for y in walk(iff['then'])) or any(y is p for y in walk(iff.get('els', {'k': 'x'}))) for p in pushes)
-        before = all(H.source_before(iff['c'], p) for p in pushes)
-        if (skip and before) or guarded:
-            tests.append(t[:60])
+        els = iff.get('els', {'k': 'x'})
+        for br, other in (('then', 'els'), ('els', 'then')):
+            body, obody = (iff['then'], els) if br == 'then' else (els, iff['then'])
+            # (a) the pushes sit in a branch that is taken only for fresh items
+            if all(any(y is p for y in walk(body)) for p in pushes) and 'fresh' in decides(c, br):
+                tests.append(t[:60])
+            # (b) every seen item leaves the iteration in front of the pushes: the branch that skips is taken whenever the item was
+            # seen, i.e. the *other* branch implies fresh
+            if any(x.get('k') == 'Continue' for x in walk(body)) and 'fresh' in decides(c, other) and all(H.source_before(iff['c'], p) for p in pushes):
+                tests.append(t[:60])
     # match-arm guards: `Some(x) if visited.insert(..) => push`
     for arm in (x for x in walk(loop) if x.get('k') == 'Arm' and 'guard' in x):
-        if any(c.get('m') == 'insert' for c in H.calls_in(arm['guard'])) and all(any(y is p for y in walk(arm['body'])) for p in pushes):
+        if 'fresh' in decides(arm['guard'], 'then') and all(any(y is p for y in walk(arm['body'])) for p in pushes):
             tests.append(pp(arm['guard'], maxlen=60))
     if tests:
         return True, 'pushes onto the work list happen only for items not seen before (%s)' % tests[0]
